@@ -34,7 +34,50 @@ def unb_dens(x, a, b):
     return a + b * x
 
 
+def xy_lin_bc(x, b, c):
+    return b * x + c
+
+
+def xy_lin_ba(x, b, a):
+    return b * x + 2 * a
+
+
+def xy_lin_cd(x, c, d):
+    return c * x + d
+
+
+def idx2_bc(b, c):
+    return [b + c, 2 * b - c]
+
+
+def idx2_ba(b, a):
+    return [b + 3 * a, 2 * b - a]
+
+
+def idx1_ab(a, b):
+    return [a + 2 * b]
+
+
+def idx1_ba(b, a):
+    return [b + 3 * a]
+
+
+def idx1_bc(b, c):
+    return [2 * b - c]
+
+
+IDX_MODELS = {
+    "idx1_bc": dict(fn=idx1_bc, pars=("b", "c")),
+    "idx1_ab": dict(fn=idx1_ab, pars=("a", "b")),
+    "idx1_ba": dict(fn=idx1_ba, pars=("b", "a")),
+    "idx_bc": dict(fn=idx2_bc, pars=("b", "c")),
+    "idx_ba": dict(fn=idx2_ba, pars=("b", "a")),
+}
+
 XY_MODELS = {
+    "lin_bc": dict(fn=xy_lin_bc, pars=("b", "c"), f=lambda x, p: p[0] * x + p[1], dfdx=lambda x, p: p[0] + 0 * x),
+    "lin_ba": dict(fn=xy_lin_ba, pars=("b", "a"), f=lambda x, p: p[0] * x + 2 * p[1], dfdx=lambda x, p: p[0] + 0 * x),
+    "lin_cd": dict(fn=xy_lin_cd, pars=("c", "d"), f=lambda x, p: p[0] * x + p[1], dfdx=lambda x, p: p[0] + 0 * x),
     "lin": dict(fn=xy_lin, pars=("a", "b"), f=lambda x, p: p[0] * x + p[1], dfdx=lambda x, p: p[0] + 0 * x),
     "quad": dict(fn=xy_quad, pars=("a", "b", "c"), f=lambda x, p: p[0] * x * x + p[1] * x + p[2], dfdx=lambda x, p: 2 * p[0] * x + p[1]),
 }
@@ -70,6 +113,8 @@ class Problem:
             if poisson:
                 assume_counts(cx, self.y)
             self.fn = idx2 if n == 2 else idx3
+            if model is not None:
+                self.fn, self.par_names = IDX_MODELS[model]["fn"], IDX_MODELS[model]["pars"]
             self.fit = IndexedFit(list(self.y), self.fn, cost_function=cost, minimizer=minimizer, **fit_kwargs)
         elif ftype == "hist":
             from kafe2 import HistContainer, HistFit
